@@ -905,7 +905,7 @@ func TestVerifC29History(t *testing.T) {
 			if res.panic != "" {
 				rt.Fatalf("C29: panic during tx%d (%s): %s\n%s", i, variant, res.panic, h.dump())
 			}
-			if len(mon.viol) > 0 && false {
+			if len(mon.viol) > 0 {
 				rt.Fatalf("C29: tx%d (%s): %d violation(s), first: %s\n%s", i, variant, len(mon.viol), mon.viol[0], h.dump())
 			}
 			if len(mon.frames) != 0 {
@@ -1051,7 +1051,7 @@ func TestVerifC29History(t *testing.T) {
 			c.Class("history:failed-frame-restored-slot-written-by-enclosing-frame")
 		}
 		if monA.restoredOuter > 0 && earlierChanged {
-			c.Class("history:...-in-final-tx-after-earlier-storage-change")
+			c.Class("history:final-tx-failed-frame-restored-enclosing-write-after-earlier-tx-changed-storage")
 		}
 		if total.restoredToOrig > 0 {
 			c.Class("history:failed-frame-restored-block-start-value-of-slot-changed-by-earlier-tx")
